@@ -447,10 +447,10 @@ def cases(tier: str, seed: int) -> List[Case]:
         n = len(files)
         has_da = _ndas(files) > 0
         # every symbolic bool doubles the path count (the parser branches on `value is True` and on
-        # a truthy disable_all): at most 4 symbolic booleans per case (5 in thorough)
-        if _nvals(files) + _ndas(files) > (3 if quick else 5):
+        # a truthy disable_all): at most 3 symbolic booleans per case (4 in thorough)
+        if _nvals(files) + _ndas(files) > (3 if quick else 4):
             continue
-        mod = {1: 1, 2: (3 if quick else 1), 3: 12}[n]
+        mod = {1: 1, 2: (3 if quick else 2), 3: 12}[n]
         if (idx + seed) % mod != 0:
             continue
         kind = "bool_on" if (idx // mod) % 2 == 0 else "bool_off"
